@@ -40,6 +40,9 @@ func scenarioWorkable(c *vrun.Ctx) {
 		{"lock_shards=0", []string{"cache", "lock_shards"}, 0},
 		{"lock_shards=-1", []string{"cache", "lock_shards"}, -1},
 		{"lock_shards=1", []string{"cache", "lock_shards"}, 1},
+		// more shard locks than can be allocated: NewProxy's make() panics ("len out of range")
+		{"lock_shards=1e18", []string{"cache", "lock_shards"}, 1e18},
+		{"lock_shards=4096", []string{"cache", "lock_shards"}, 4096},
 		{"memory_budget_percent=0", []string{"cache", "memory", "memory_budget_percent"}, 0},
 		{"max_cache_size=1B", []string{"cache", "max_cache_size"}, "1B"},
 		{"cleanup_interval=1ns", []string{"cache", "cleanup_interval"}, "1ns"},
